@@ -40,7 +40,7 @@ SITES = ['reindex_fill', 'shift_fill', 'series_concat', 'frame_concat_rows', 'fr
          'assign_array', 'assign_frame_element', 'fillna_element', 'fillna_series', 'from_records', 'series_from_list', 'row_consolidation',
          'values_2d', 'iter_tuple', 'index_append', 'index_union', 'from_overlay', 'frame_reindex_fill', 'frame_shift_fill',
          'fillna_forward_axis1', 'unset_index', 'insert_fill', 'series_from_dict', 'frame_from_dict_records', 'index_from_list',
-         'fillna_forward_axis1_block', 'fillna_backward_axis1_block', 'assign_frame_into_block', 'series_insert']
+         'fillna_forward_axis1_block', 'fillna_backward_axis1_block', 'assign_frame_into_block', 'series_insert', 'grown_frame_rows']
 
 
 TECHNIQUE = 'runtime monitoring: loss oracle (every supplied element must be read back equal) at 30 merge sites x the dtype-pair matrix, with arranged Python-value inputs and multi-column block sites'
@@ -406,6 +406,23 @@ def run_site(case):
             o.cell(av[i], r.loc[lab], 'a')
         o.cell(bv[0], r.loc['m'], 'b')
         o.cell(bv[1], r.loc['n'], 'b')
+    elif site == 'grown_frame_rows':
+        # a grow-only frame that received its second column later: rows and .values consolidate what the frame holds now
+        f = sf.FrameGO.from_items([('ca', V.to_array(av, a))])
+        f['cb'] = V.to_array(bv, b)
+        how = (case.get('order') or [0])[0] % 3
+        for i in range(n):
+            if how == 0:
+                row = f.iloc[i]
+                ga, gb = row.iloc[0], row.iloc[1]
+            elif how == 1:
+                vals = f.values
+                ga, gb = vals[i, 0], vals[i, 1]
+            else:
+                t = list(f.iter_tuple(axis=1, constructor=tuple))[i]
+                ga, gb = t[0], t[1]
+            o.cell(av[i], ga, 'a')
+            o.cell(bv[i], gb, 'b')
     elif site == 'unset_index':
         if any(canon.is_missing(v) for v in av):
             return None
